@@ -278,7 +278,16 @@ def run(tier, only=None):
         ds += CB.static_drivers(tier, only)
     if "sqrt" in groups:
         ds += CS.drivers(tier, only)
-    built = build(ds, tag="C12-default")
+    # a user-defined ModInt256 instance with q = 5 mod 8 (the property quantifies over user-defined moduli; none of the
+    # library's own ModInt256 types exercises the q = 5 mod 8 constants): closed cases, replayed natively
+    UQ = 0xC0000000000000010123456789ABCDE6FEDCBA987654321000000000000000E5
+    umod = "sqrt" in groups and not keys
+    prelude = ""
+    if umod:
+        prelude = ("    pub type VMod5 = crate::backend::ModInt256<0x00000000000000E5, 0xFEDCBA9876543210, 0x0123456789ABCDE6, 0xC000000000000001>;\n")
+        ds.append(Driver("drv_vmod5_sqrt", [("x", "in", 1, 32), ("out", "out", 1, 32), ("st", "out", 4, 1)],
+                         "        let v = VMod5::decode_reduce(&x[..]);\n        let (y, r) = v.sqrt();\n        *out = y.encode32(); st[0] = r;"))
+    built = build(ds, tag="C12-default", prelude=prelude)
     if "batch" in groups:
         th.join()
         if "mir" in box:
@@ -321,6 +330,25 @@ def run(tier, only=None):
             obs.append(o)
             if "MachineryError" in str(val):
                 merr = str(val)[-600:]
+    if umod:
+        ob = Obligation("default:user_modint256_q5mod8.sqrt:corpus", "ground", ["backend::w64::modint::ModInt256::set_sqrt (q = 5 mod 8: make_qm5d8, Atkin)"],
+                        "closed cases: a user-defined 256-bit prime q = 5 mod 8 (limbs 2 and 3 differ in their low three bits); 0, small squares, random squares and non-squares",
+                        "status all-ones and an even root y with y^2 = x exactly for squares; status 0 and value 0 otherwise")
+        r_ = rng("c12umod")
+        tc = time.time()
+        bad = None
+        xs = [0, 1, 4, 9, UQ - 1, 2, 3, 5] + [pow(r_.randrange(2, UQ), 2, UQ) for _ in range(12)] + [r_.randrange(2, UQ) for _ in range(12)]
+        for x in xs:
+            nat = built.native("drv_vmod5_sqrt", {"x": list(x.to_bytes(32, "little"))})
+            y = int.from_bytes(bytes(nat["out"]), "little")
+            is_sq = x == 0 or pow(x, (UQ - 1) // 2, UQ) == 1
+            good = (nat["st"][0] == 0xFFFFFFFF and y * y % UQ == x and y % 2 == 0 and y < UQ) if is_sq else (nat["st"][0] == 0 and y == 0)
+            if not good:
+                bad = {"key": "user_modint256_q5mod8.sqrt", "inputs": {"x": hex(x), "q": hex(UQ)}, "native": {"y": hex(y), "status": hex(nat["st"][0])},
+                       "is_square": is_sq, "found_by": "native replay of closed cases"}
+                break
+        (ob.fail(bad, "native", time.time() - tc, 0) if bad else ob.ok("native replay x%d" % len(xs), time.time() - tc, 0, syntactic=True))
+        obs.append(ob)
     built.close()
     bounds = {"lin": "all u, v (all limb patterns); all f, g with |f|,|g| <= 2^62, one obligation per sign case",
               "lindiv31abs": "all a, b in [0, 2^(bits-1)) as in the GCD; |f|,|g| <= 2^31 per sign case; exact-division and fit preconditions as documented",
